@@ -67,8 +67,22 @@ Fixpoint iter_pos (s : sig) (i : nat) (vs : list V) : list (V * option formal) :
           else option_map FElem (opt_ann s (s_varargs s))) :: iter_pos s (S i) vs'
   end.
 
-Definition iter_named1 (s : sig) (nv : nat * V) : V * option formal :=
+(* names a keyword can bind (the fixed code's keyword_params; also used by the specification below) *)
+Definition keywordable (s : sig) : list nat := skipn (s_posonly s) (s_params s) ++ s_kwonly s.
+
+(* one keyword.  TWO VARIANTS of the code, selected by [fx]:
+   fx = false  the code before fixes/C02-iter-args-keyword-binding.patch: the name is looked up in self.annotations
+               (which also holds the *args / **kwargs entries), `if formal is None and self.kwargs_name` falls back to
+               **kwargs' element type, and _match_args_sequentially widens by the yielded NAME;
+   fx = true   the fixed code: `if name in keyword_params: formal = self.annotations.get(name)` else **kwargs'
+               element type; widening only for the real *x / **x arguments (`arg is args.starargs`).
+   The check probes which variant the tree under test implements. *)
+Definition iter_named1 (fx : bool) (s : sig) (nv : nat * V) : V * option formal :=
   let n := fst nv in
+  if fx then
+    (snd nv, if nmem n (keywordable s) then option_map FElem (ann s n)
+             else option_map FElem (opt_ann s (s_kwargs s)))
+  else
   let f0 := if nmem n (firstn (s_posonly s) (s_params s)) then None else ann_by_name s n in
   (snd nv, match f0 with
            | Some f => Some f
@@ -78,8 +92,8 @@ Definition iter_named1 (s : sig) (nv : nat * V) : V * option formal :=
                           (opt_ann s (s_kwargs s))
            end).
 
-Definition iter_args (s : sig) (c : call) : list (V * option formal) :=
-  iter_pos s 0 (c_pos c) ++ map (iter_named1 s) (c_named c)
+Definition iter_args (fx : bool) (s : sig) (c : call) : list (V * option formal) :=
+  iter_pos s 0 (c_pos c) ++ map (iter_named1 fx s) (c_named c)
   ++ (match s_varargs s, c_star c with
       | Some va, Some v => [(v, option_map FStar (ann s va))]
       | _, _ => []
@@ -90,8 +104,8 @@ Definition iter_args (s : sig) (c : call) : list (V * option formal) :=
       end).
 
 (* an error is raised iff some argument that has a formal does not match it *)
-Definition err_call (matchf : V -> formal -> bool) (s : sig) (c : call) : bool :=
-  existsb (fun vf => match snd vf with Some f => negb (matchf (fst vf) f) | None => false end) (iter_args s c).
+Definition err_call (fx : bool) (matchf : V -> formal -> bool) (s : sig) (c : call) : bool :=
+  existsb (fun vf => match snd vf with Some f => negb (matchf (fst vf) f) | None => false end) (iter_args fx s c).
 
 (* ---- SPECIFICATION: CPython's binding ------------------------------------------------------------- *)
 
@@ -106,9 +120,6 @@ Fixpoint bind_pos (s : sig) (ps : list nat) (vs : list V) : option (list (V * op
       | None => None
       end
   end.
-
-(* names a keyword can bind *)
-Definition keywordable (s : sig) : list nat := skipn (s_posonly s) (s_params s) ++ s_kwonly s.
 
 (* one keyword: None = TypeError (multiple values / unexpected keyword) *)
 Definition bind_named1 (s : sig) (npos : nat) (nv : nat * V) : option (V * option formal) :=
@@ -156,7 +167,7 @@ Definition all_names (s : sig) : list nat :=
   ++ (match s_kwargs s with Some n => [n] | None => [] end).
 Definition wf_sig (s : sig) : bool := nodup_names (all_names s) && (s_posonly s <=? length (s_params s)).
 
-(* the two places where iter_args departs from the binding *)
+(* the two places where iter_args BEFORE THE FIX (fx = false) departs from the binding *)
 (* D1: a keyword spelled like the *args / **kwargs parameter itself (CPython puts it into **kwargs) *)
 Definition kw_named_like_star (s : sig) (c : call) : bool :=
   existsb (fun nv => opt_is (s_varargs s) (fst nv) || opt_is (s_kwargs s) (fst nv)) (c_named c).
